@@ -1,5 +1,5 @@
 \* C08 thorough: modification family to depth 3
-CONSTANTS Family = "mods" MaxDepth = 3 Wide = TRUE
+CONSTANTS Family = "mods" MaxDepth = 3 Wide = FALSE
  DottedAttrAsValue = FALSE InnerArgsLoseScope = FALSE ReRenameFlatRefs = FALSE AliasOfAliasDropsMods = FALSE InheritedTypeInDerivedScope = FALSE
 INIT Init
 NEXT Next
